@@ -89,22 +89,15 @@ CLASSIFIED = {
     ("no_await_in_loop", "NoAwaitInLoopHandler.await_expr.inside_loop"):
         ("8b6d8ea69139", ("function-boundary", "async", {})),
     ("no_await_in_sync_fn", "NoAwaitInSyncFnHandler.await_expr.inside_sync_fn"):
-        ("5d6f46d85ea5", ("function-boundary", "function-root", {
-            # finding AW-2 (confirmed with vh lint; like every input of this rule the programs carry a parse diagnostic):
-            #   async function f() { class A { constructor() { await x; } } }      -> silent (the walk escapes to `f`)
-            #   async function f() { ({ get a() { await x; return 1 } }) }         -> silent
-            # no-sync-fn-in-async-fn, its mirror image, lists these four kinds since 04571d2
-            "constructor": "AW-2", "object-getter": "AW-2", "object-setter": "AW-2", "static-block": "AW-2"})),
+        # (finding AW-2 -- the walk escaped constructors, object accessors and static blocks -- was repaired in /repo)
+        ("4155a6a210f0", ("function-boundary", "function-root", {})),
     ("no_sync_fn_in_async_fn", "NoSyncFnInAsyncFnHandler.member_expr.inside_async_fn"):
         ("89454707a0e8", ("function-boundary", "function-root", {})),
     ("no_top_level_await", "is_node_inside_function"):
         ("4d8ed5276dd7", ("function-boundary", "async", {})),
     ("no_this_before_super", "SuperCallChecker.node_is_inside_function.inside_function"):
-        ("7f0ab25e19c3", ("function-boundary", "this", {
-            # finding AW-1 (confirmed with vh lint, no parse diagnostic): the initializer of an auto-accessor field binds `this`
-            #   class B {}; class A extends B { constructor() { class C { accessor x = this.y }; super(); } }   -> reported
-            #   (the same program with `x = this.y` is silent)
-            "auto-accessor": "AW-1"})),
+        # (finding AW-1 -- the initializer of an auto-accessor field binds `this` -- was repaired in /repo)
+        ("9272f1aa3119", ("function-boundary", "this", {})),
     ("no_setter_return", "NoSetterReturnHandler.return_stmt.inside_setter"):
         ("0662da8dba7e", ("function-boundary", "return", {})),
     ("no_unsafe_finally", "stmt_inside_finally"):
@@ -142,8 +135,8 @@ CLASSIFIED = {
     ("no_sync_fn_in_async_fn", "NoSyncFnInAsyncFnHandler.member_expr"):
         ("253f137ad376", ("other", "one step: skip the inner links of a member chain")),
     ("prefer_primordials", "PreferPrimordialsHandler.ident.inside_var_decl_lhs_or_member_expr_or_prop_or_type_ref"):
-        ("cf85d2f22af9", ("other", "is the identifier a binding name / member link / property key / type name -- UNBOUNDED: any MemberExpr ancestor "
-                       "at any distance hides the identifier (finding AW-3: `f(Array).x;` and `(() => Array).x;` are silent, `Array;` is reported)")),
+        ("56221838c0a3", ("other", "is the identifier a declared binding name / direct member link / plain property key / type name (finding AW-3 -- any MemberExpr "
+                       "ancestor at any distance hid the identifier -- was repaired in /repo: only the DIRECT parent member expression counts)")),
     ("prefer_primordials", "PreferPrimordialsHandler.ident"):
         ("67dbcadd40ee", ("other", "one step: is the identifier the callee of a `new` / call expression")),
     ("prefer_primordials", "PreferPrimordialsHandler.member_expr"):
